@@ -144,6 +144,10 @@ pub fn pick_knobs(rng: &mut Rng, stress: bool) -> Knobs {
     k.yield_permille = *rng.pick(&[0u32, 100, 300, 500, 800]);
     k.short_write_permille = *rng.pick(&[0u32, 0, 200, 700]);
     k.rx_chunk = *rng.pick(&[0usize, 0, 1, 5, 100, 4096]);
+    // workers of the simulated runtime, drawn from a copy of the stream (the other draws of
+    // existing scenarios stay what they were)
+    let mut side = rng.clone();
+    k.workers = *side.pick(&[1usize, 2, 2, 3, 4, 4]);
     k
 }
 
